@@ -130,6 +130,20 @@ Definition is_self (it : list stok) : bool :=
   match it with [SId _ t] => list_eqb t [115; 101; 108; 102] | _ => false end.
 Definition nonempty {A} (l : list A) : bool := match l with [] => false | _ => true end.
 
+(* a comma at delimiter depth 0 and angle-bracket depth 0 (`<`/`>` nest in type position; the `>`
+   of `->` does not close) *)
+Fixpoint has_type_comma (l : list stok) (depth angle : nat) (prev_minus : bool) : bool :=
+  match l with
+  | [] => false
+  | SOp _ :: r => has_type_comma r (S depth) angle false
+  | SCl _ :: r => has_type_comma r (pred depth) angle false
+  | x :: r =>
+    if is_pu 44 x && Nat.eqb depth 0 && Nat.eqb angle 0 then true
+    else if is_pu 60 x && Nat.eqb depth 0 then has_type_comma r depth (S angle) false
+    else if is_pu 62 x && Nat.eqb depth 0 && negb prev_minus then has_type_comma r depth (pred angle) false
+    else has_type_comma r depth angle (is_pu 45 x)
+  end.
+
 (* `acc` is the output so far, reversed.  Rules:
    N1 a comma directly before a closing delimiter, before `{` or before `;` is dropped
       (trailing commas of lists, match arms, where clauses);
@@ -157,7 +171,7 @@ Fixpoint norm (fuel : nat) (l : list stok) (acc : list stok) : list stok :=
                     else norm f rest (rev_append it acc)
           | its => norm f rest (SCl d' :: rev_append (join_commas its) (SOp d :: acc))
           end
-        else if (d =? 0) && type_pos && nonempty inner' && Nat.eqb (length items) 1 then
+        else if (d =? 0) && type_pos && nonempty inner' && negb (has_type_comma inner' 0 0 false) then
           norm f rest (rev_append inner' acc)
         else norm f rest (SCl d' :: rev_append inner' (SOp d :: acc))
       end
